@@ -416,3 +416,19 @@ pub fn debug_js(code: String) -> Result<RewrittenOutput> {
         })
     });
 }
+
+// Verification hook (add-only, compiled only with `--cfg dd_iast_rewriter_verif`):
+// parse a text with exactly the parser options the rewriter itself uses.
+#[cfg(dd_iast_rewriter_verif)]
+pub fn verif_parse_js(code: String, file: &str) -> Result<Program> {
+    let compiler = Compiler::new(Arc::new(swc_common::SourceMap::new(
+        FilePathMapping::empty(),
+    )));
+    try_with_handler(compiler.cm.clone(), default_handler_opts(), |handler| {
+        let source_file = compiler
+            .cm
+            .new_source_file(Arc::new(FileName::Real(PathBuf::from(file))), code);
+
+        parse_js(&source_file, handler, &compiler)
+    })
+}
